@@ -412,6 +412,14 @@ func runR054(c *core.Ctx) {
 	_, serve := mustDecl(c, rel, "(*rootNode).ServeHTTP")
 	has, trim := false, false
 	ast.Inspect(serve.Body, func(n ast.Node) bool {
+		// path, ok := strings.CutPrefix(path, r.prefix) with ok kept: the test and the strip in one call
+		if as, ok := n.(*ast.AssignStmt); ok && len(as.Lhs) == 2 && len(as.Rhs) == 1 {
+			if call, ok := core.Unparen(as.Rhs[0]).(*ast.CallExpr); ok && len(call.Args) == 2 && core.IsFunc(core.Callee(inf, call), "strings", "CutPrefix") && core.ObjOf(inf, call.Args[1]) == prefixField {
+				if id, ok := core.Unparen(as.Lhs[1]).(*ast.Ident); ok && id.Name != "_" {
+					has = true
+				}
+			}
+		}
 		if call, ok := n.(*ast.CallExpr); ok && len(call.Args) == 2 {
 			f := core.Callee(inf, call)
 			if core.ObjOf(inf, call.Args[1]) == prefixField {
